@@ -91,6 +91,16 @@ func c03Grid() []string {
 		}
 		out = append(out, fmt.Sprintf("struct:pathchar:%d", c))
 	}
+	// malformed percent-escapes in the query (net/url accepts them there and
+	// net/http sends them as they are): a '%' not followed by two hex digits is
+	// a literal character, never an escape of something else
+	for _, x := range []string{"g", "z", "G", "Z", "&", "=", "-", "%", "+", "~", "x", "q"} {
+		for _, d := range []string{"1", "4", "a", "F"} {
+			out = append(out, "http://a.example/p?k=%"+x+d, "http://a.example/p?k=%"+d+x, "http://a.example/p?k=%"+x+d+"&x=1")
+		}
+		out = append(out, "http://a.example/p?k=%"+x+x, "http://a.example/p?k=%"+x)
+	}
+	out = append(out, "http://a.example/p?k=%", "http://a.example/p?k=%4", "http://a.example/p?k=%%34", "http://a.example/p?k=%%341", "http://a.example/p?k=100%&x=1", "http://a.example/p?k=100q=1", "http://a.example/p?k=%zz", "http://a.example/p?k=3")
 	out = append(out, "struct:rawpath:", "struct:forcequery:", "struct:opaque:http", "struct:opaque:https", "struct:space:", "struct:upperhost:")
 	// drop what Go cannot parse / build a request for
 	var ok []string
